@@ -78,7 +78,8 @@ func main() {
 	var rows []row
 	var consts []string // Source constants in iota order
 	var desc []string   // SourcesInDescendingOrder
-	var locals []string // cases of Source.Local() returning true
+	var locals []string // sources for which Source.Local() returns true
+	var localOf func(name string) bool
 	sawMetaRe := false
 
 	for _, d := range f.Decls {
@@ -177,7 +178,8 @@ func main() {
 			if id, ok := d.Recv.List[0].Type.(*ast.Ident); !ok || id.Name != "Source" {
 				continue
 			}
-			// expect: switch source { case A, B, ...: return true; default: return false }
+			// expect: switch source { case A, B, ...: return X; [case ...: return Y;] default: return Z }
+			// (allow-list or deny-list): evaluate it for every Source constant.
 			if len(d.Body.List) != 1 {
 				die("Source.Local has unexpected shape")
 			}
@@ -185,6 +187,11 @@ func main() {
 			if !ok {
 				die("Source.Local has unexpected shape")
 			}
+			if tag, ok := sw.Tag.(*ast.Ident); !ok || len(d.Recv.List[0].Names) != 1 || tag.Name != d.Recv.List[0].Names[0].Name {
+				die("Source.Local does not switch on its receiver")
+			}
+			caseVal := map[string]bool{}
+			defVal, haveDef := false, false
 			for _, c := range sw.Body.List {
 				cc := c.(*ast.CaseClause)
 				if len(cc.Body) != 1 {
@@ -199,20 +206,40 @@ func main() {
 					die("Source.Local case has unexpected shape")
 				}
 				if cc.List == nil { // default
-					if val.Name != "false" {
-						die("Source.Local default returns true")
-					}
+					defVal, haveDef = val.Name == "true", true
 					continue
 				}
 				for _, e := range cc.List {
-					if val.Name == "true" {
-						locals = append(locals, e.(*ast.Ident).Name)
+					id, ok := e.(*ast.Ident)
+					if !ok {
+						die("Source.Local case label is not a constant name")
+					}
+					if _, dup := caseVal[id.Name]; !dup {
+						caseVal[id.Name] = val.Name == "true"
 					}
 				}
 			}
+			if !haveDef {
+				// falls out of the switch: the function must end with a return we do not model
+				die("Source.Local has no default case")
+			}
+			localOf = func(name string) bool {
+				if v, ok := caseVal[name]; ok {
+					return v
+				}
+				return defVal
+			}
 		}
 	}
-	if len(rows) == 0 || len(consts) == 0 || len(desc) == 0 || len(locals) == 0 || !sawMetaRe {
+	if localOf == nil {
+		die("Source.Local not found")
+	}
+	for _, c := range consts {
+		if localOf(c) {
+			locals = append(locals, c)
+		}
+	}
+	if len(rows) == 0 || len(consts) == 0 || len(desc) == 0 || !sawMetaRe {
 		die("did not find everything: rows=%d consts=%d desc=%d locals=%d metaRe=%v", len(rows), len(consts), len(desc), len(locals), sawMetaRe)
 	}
 	// knownParams is keyed by strings.ToLower(field.Name): refuse colliding names (the later
